@@ -2,8 +2,8 @@
 From Coq Require Import List NArith Bool.
 From JV.lib Require Import Bytes.
 From JV.gen Require Import ScannerTable ScannerTyping.
-From JV.model Require Import ScannerSem TableCheck.
-From JV.proofs Require Import TM_Events TM_Loop ScanTheorems.
+From JV.model Require Import ScannerSem TableCheck TriviaCheck.
+From JV.proofs Require Import TM_Events TM_Loop ScanTheorems TM_Trivia TriviaCover.
 Import ListNotations.
 
 (* the finite obligation: every (state, byte, reachable leaf) of the table regenerated from the
@@ -22,3 +22,42 @@ Theorem lexemes_in_bounds_and_ordered : forall jsc_len enum_len data,
   ordered (scan_lexemes jsc_len enum_len data).
 Proof. exact lexemes_wf_lemma. Qed.
 Print Assumptions lexemes_in_bounds_and_ordered.
+
+(* ---- second half: no user content is silently dropped ---- *)
+
+(* the finite obligation: in every (state, byte, reachable leaf) of the regenerated table, a byte that ends up in no
+   lexeme (none open, none opened or closed on it, not re-read after a rewind) is one the hand-written skip
+   specification [gen_skip] (proofs/TriviaCover.v) allows that state to skip: blanks and line ends between lexemes,
+   '#' and comment text, the delimiter bytes of annotations; bodies are only read right after their lexeme was opened *)
+Theorem scanner_skip_spec_ok : trivia_ok gen_typing gen_skip = true.
+Proof. exact gen_trivia_ok. Qed.
+Print Assumptions scanner_skip_spec_ok.
+
+(* for every input and every sane schema library: when the scan reaches the end of the file with no lexeme half open
+   and no event pending, every byte of the input lies inside a lexeme or was consumed in a state that may skip it
+   (or is the '*' of the '*/' closing a multi-line annotation).  PARTIAL in its two side conditions, which are stated
+   about the final configuration and not yet derived: at table level no state accepts the end of the file with a lexeme
+   open (eof_never_leaves_a_lexeme_open_table below; until the repair 6fb0755 stateRegexBodyAfterSlash did, and a regex
+   body ending in a backslash at the end of the file was dropped without a diagnostic - found by this obligation). *)
+Theorem no_content_dropped : forall jsc_len enum_len data,
+  len_sane jsc_len -> len_sane enum_len -> Forall isb data ->
+  forall lexs g, scan jsc_len enum_len data = (lexs, SEof, g) ->
+  estk g = [] -> finds g = [] ->
+  forall p, p < N.of_nat (List.length data) ->
+    (exists l, In l lexs /\ lb l <= p /\ p <= le l) \/ skipped jsc_len enum_len data p.
+Proof. exact no_content_dropped_lemma. Qed.
+Print Assumptions no_content_dropped.
+
+(* a skipped byte is a blank, a line end, '#', '/' or '*', or it was consumed inside a comment *)
+Theorem skipped_is_trivia : forall jsc_len enum_len data p,
+  skipped jsc_len enum_len data p ->
+  trivia_byte (byte_at data p) = true \/
+  exists s, In (p, s) (consume_trace jsc_len enum_len data) /\ In s comment_text_states.
+Proof. exact skipped_is_trivia_lemma. Qed.
+Print Assumptions skipped_is_trivia.
+
+(* over every leaf the end-of-file byte reaches: no state accepts the end of the file while a lexeme that covers real
+   bytes is open *)
+Theorem eof_never_leaves_a_lexeme_open_table : eof_open_states gen_typing gen_skip = [].
+Proof. exact eof_open_states_table_partial. Qed.
+Print Assumptions eof_never_leaves_a_lexeme_open_table.
